@@ -187,3 +187,167 @@ func ruleRELOADAGREE(p *Program, rep *Report) {
 		}
 	}
 }
+
+// ---- MMAP-COVERS-FILE (C10): the size handed to MMap depends on the real file size on every path ----
+
+type depCtx struct {
+	p    *Program
+	memo map[string]bool
+}
+
+// dependsAll: on every path, v is computed from a value satisfying base.
+func (d *depCtx) dependsAll(fn *ssa.Function, v ssa.Value, base func(ssa.Value) bool, seen map[ssa.Value]bool) bool {
+	if v == nil || seen[v] {
+		return false
+	}
+	seen[v] = true
+	defer delete(seen, v)
+	if base(v) {
+		return true
+	}
+	switch x := v.(type) {
+	case *ssa.Convert:
+		return d.dependsAll(fn, x.X, base, seen)
+	case *ssa.ChangeType:
+		return d.dependsAll(fn, x.X, base, seen)
+	case *ssa.UnOp:
+		if x.Op.String() == "*" {
+			// load of a spilled local: depends if every store to the cell does
+			if a, ok := x.X.(*ssa.Alloc); ok && a.Referrers() != nil {
+				n, all := 0, true
+				for _, r := range *a.Referrers() {
+					if st, ok := r.(*ssa.Store); ok && st.Addr == ssa.Value(a) {
+						n++
+						all = all && d.dependsAll(fn, st.Val, base, seen)
+					}
+				}
+				return n > 0 && all
+			}
+			return false
+		}
+		return d.dependsAll(fn, x.X, base, seen)
+	case *ssa.BinOp:
+		return d.dependsAll(fn, x.X, base, seen) || d.dependsAll(fn, x.Y, base, seen)
+	case *ssa.Phi:
+		for i, e := range x.Edges {
+			if d.dependsAll(fn, e, base, seen) {
+				continue
+			}
+			// control dependence: the edge is taken under a comparison of e with a base-dependent value
+			// (e.g. `if fileSize > maxSize { maxSize = fileSize }`: the fall-through edge knows fileSize <= maxSize)
+			ok := edgeFacts(x.Block().Preds[i], x.Block(), 0, map[ssa.Value]bool{}).every(func(cj conj) bool {
+				return cj.has(func(a atom) bool {
+					_, l, r, isCmp := cmpAtom(a)
+					if !isCmp {
+						return false
+					}
+					return (stripConv(l) == stripConv(e) && d.dependsAll(fn, r, base, seen)) || (stripConv(r) == stripConv(e) && d.dependsAll(fn, l, base, seen))
+				})
+			})
+			if !ok {
+				return false
+			}
+		}
+		return len(x.Edges) > 0
+	case *ssa.Extract:
+		if c, ok := x.Tuple.(*ssa.Call); ok {
+			return d.callDepends(fn, c, x.Index, base, seen)
+		}
+	case *ssa.Call:
+		return d.callDepends(fn, x, 0, base, seen)
+	}
+	return false
+}
+
+func (d *depCtx) callDepends(fn *ssa.Function, c *ssa.Call, resIdx int, base func(ssa.Value) bool, seen map[ssa.Value]bool) bool {
+	sc := c.Common().StaticCallee()
+	if sc == nil {
+		return false
+	}
+	if !d.p.InRepo(sc) || len(sc.Blocks) == 0 {
+		// library function (e.g. bits.LeadingZeros64): result depends on its arguments
+		for _, a := range c.Common().Args {
+			if d.dependsAll(fn, a, base, seen) {
+				return true
+			}
+		}
+		return false
+	}
+	for i, a := range c.Common().Args {
+		if d.dependsAll(fn, a, base, seen) && d.resultDependsOnParam(sc, resIdx, i) {
+			return true
+		}
+	}
+	return false
+}
+
+// resultDependsOnParam: on every non-failing return of f, result resIdx is computed from parameter i.
+func (d *depCtx) resultDependsOnParam(f *ssa.Function, resIdx, i int) bool {
+	key := fmt.Sprintf("%s#%d#%d", f.String(), resIdx, i)
+	if v, ok := d.memo[key]; ok {
+		return v
+	}
+	d.memo[key] = false // recursion guard
+	if i >= len(f.Params) {
+		return false
+	}
+	par := f.Params[i]
+	n, all := 0, true
+	for _, b := range f.Blocks {
+		r, ok := b.Instrs[len(b.Instrs)-1].(*ssa.Return)
+		if !ok || resIdx >= len(r.Results) {
+			continue
+		}
+		// failing returns: (0, non-nil error)
+		if len(r.Results) > 1 && !isNilConst(r.Results[len(r.Results)-1]) && isIntConst(r.Results[resIdx], 0) {
+			continue
+		}
+		n++
+		if !d.dependsAll(f, r.Results[resIdx], func(v ssa.Value) bool { return v == ssa.Value(par) }, map[ssa.Value]bool{}) {
+			all = false
+		}
+	}
+	res := n > 0 && all
+	d.memo[key] = res
+	return res
+}
+
+func ruleMMAPCOVERSFILE(p *Program, rep *Report) {
+	rep.Rule("MMAP-COVERS-FILE", 1, "the size handed to vfs MMap in File.mmap is, on every path, computed from the real file size returned by Size(): a mapping whose size ignores the file size cannot cover pages written past the configured maximum (overflow area), so a reopen cannot read them")
+	fn := p.Method("txfile", "File", "mmap")
+	rep.Analysed(funcName(fn))
+	d := &depCtx{p: p, memo: map[string]bool{}}
+	isSize := func(v ssa.Value) bool {
+		ex, ok := v.(*ssa.Extract)
+		if !ok || ex.Index != 0 {
+			return false
+		}
+		c, ok := ex.Tuple.(*ssa.Call)
+		if !ok {
+			return false
+		}
+		if c.Common().IsInvoke() {
+			return c.Common().Method.Name() == "Size" && isNamed(c.Common().Value.Type(), modPath+"/internal/vfs", "File")
+		}
+		return false
+	}
+	found := false
+	for _, b := range fn.Blocks {
+		for _, ins := range b.Instrs {
+			c, ok := ins.(*ssa.Call)
+			if !ok || !c.Common().IsInvoke() || c.Common().Method.Name() != "MMap" {
+				continue
+			}
+			found = true
+			key := "File.mmap|MMap-size"
+			if d.dependsAll(fn, c.Common().Args[0], isSize, map[ssa.Value]bool{}) {
+				rep.OK("MMAP-COVERS-FILE", key, p.InstrPos(ins), "mapping size depends on the file size on every path")
+			} else {
+				rep.Bad("MMAP-COVERS-FILE", key, p.InstrPos(ins), "on some path the size of the memory mapping is computed without the real file size: a file that grew past the configured maximum (overflow area in use) is mapped too short, the free list / overwrite mapping stored there cannot be read back and Open fails or loses them")
+			}
+		}
+	}
+	if !found {
+		rep.Unknown("MMAP-COVERS-FILE", "File.mmap|MMap-size", p.Pos(fn.Pos()), "File.mmap no longer calls MMap (anchor lost)")
+	}
+}
